@@ -12,8 +12,8 @@ use frmc_core::refsem;
 use frmc_core::space;
 use std::collections::BTreeMap;
 
-const FUEL: u64 = 400_000;
-const STACK_CAP: usize = 30_000;
+const FUEL: u64 = 100_000;
+const STACK_CAP: usize = 10_000;
 const TINY: u64 = 10_000;
 
 pub fn run_c07(cx: &Ctx) -> i32 {
